@@ -75,6 +75,10 @@ func genTmpl(r *vk.RNG, allowFail, allowTyped bool) Tmpl {
 				return fmt.Sprint(float64(b)), true
 			}},
 			{`{{ urldecode "%zz" }}`, func(e *Ent) (string, bool) { return "", false }},
+			// failures raised by the template executor itself, not by a function returning an error
+			{`{{ alignLeft .` + l2 + ` __line__ }}`, func(e *Ent) (string, bool) { return "", false }},
+			{`{{ .` + l2 + `.name }}`, func(e *Ent) (string, bool) { return "", false }},
+			{`x{{ repeat .` + l1 + ` "-" }}`, func(e *Ent) (string, bool) { return "", false }},
 			// text is emitted BEFORE a data-dependent failure: some records fail, others succeed
 			{`<{{ .` + l1 + ` }}:{{ index .` + l2 + ` 3 }}>`, func(e *Ent) (string, bool) {
 				v := e.L[l2]
@@ -98,7 +102,16 @@ func genTmpl(r *vk.RNG, allowFail, allowTyped bool) Tmpl {
 		}
 		return Tmpl{Text: f.text, Eval: f.eval, Fails: true}
 	}
-	switch r.Intn(26) {
+	switch r.Intn(30) {
+	// the root variable $ is the label set as well; variables carry values between actions
+	case 26:
+		return Tmpl{Text: "{{ $." + l1 + " }}", Eval: ok(func(e *Ent) string { return tl(e, l1) })}
+	case 27:
+		return Tmpl{Text: `{{ index $ "` + l1 + `" }}|{{ $.` + l2 + ` }}`, Eval: ok(func(e *Ent) string { return tl(e, l1) + "|" + tl(e, l2) })}
+	case 28:
+		return Tmpl{Text: `{{ $l := __line__ }}{{ printf "%s [%s]" $l $.` + l1 + ` }}`, Eval: ok(func(e *Ent) string { return e.Line + " [" + tl(e, l1) + "]" })}
+	case 29:
+		return Tmpl{Text: `{{ $v := .` + l1 + ` }}<{{ $v }}>{{ $.` + l2 + ` }}`, Eval: ok(func(e *Ent) string { return "<" + tl(e, l1) + ">" + tl(e, l2) })}
 	case 0:
 		s := "lit-" + strconv.Itoa(r.Intn(100))
 		return Tmpl{Text: s, Eval: ok(func(e *Ent) string { return s })}
